@@ -494,8 +494,9 @@ def unchecked_flags(body, producers, opaque=None, unknown=None):
             if k == "dowhile" and not after_once:
                 return after_once            # the body ran: what it read is read (None: it always leaves)
             if after_once:
-                # second iteration: anything still pending that gets re-assigned is an overwrite
-                again = run(bodyst, dict(after_once))
+                # second iteration: anything still pending that gets re-assigned is an overwrite -- unless the loop condition,
+                # evaluated in between, reads it (`for (..; k < n && flag == RETRY; ..) flag = call();`)
+                again = run(bodyst, {v: c for v, c in after_once.items() if not reads(cond, v)})
                 merged = dict(pend)
                 merged.update(after_once)
                 if again:
